@@ -321,6 +321,8 @@ def seq_range(a, b):
 
 
 def seq_eq(a, b):
+    if a is b:
+        return True
     if isinstance(a, str) and isinstance(b, str):
         return a == b
     kind = 'str' if (is_str(a) or is_str(b)) else 'ilist'
